@@ -47,6 +47,11 @@ pub fn verif_dir() -> PathBuf {
         .unwrap_or_else(|| PathBuf::from("/verif"))
 }
 
+/// How many runs per violation signature are kept for classification, and how many of them
+/// are shrunk at most while all of them turn out to be listed findings.
+const MAX_CANDIDATES_PER_SIGNATURE: usize = 48;
+const MAX_SHRINKS_PER_SIGNATURE: usize = 8;
+
 #[derive(Clone, Debug, Serialize, Deserialize)]
 pub struct KnownFinding {
     pub property: String,
@@ -380,7 +385,8 @@ pub fn run_batch(prop: &dyn Property, tier: &str, seed: u64) -> BatchOutcome {
     let mut nontrivial_signatures: BTreeSet<u64> = BTreeSet::new();
     let mut counters: BTreeMap<String, u64> = BTreeMap::new();
     let mut samples: Vec<serde_json::Value> = Vec::new();
-    let mut first_by_sig: BTreeMap<ViolationSig, (usize, Scenario, Violation, usize)> =
+    // per signature: the first runs that showed it (in index order) and the total count
+    let mut first_by_sig: BTreeMap<ViolationSig, (Vec<(usize, Scenario, Violation)>, usize)> =
         BTreeMap::new();
     let mut violating_runs = 0usize;
     for (index, record) in records.into_iter().enumerate() {
@@ -411,18 +417,14 @@ pub fn run_batch(prop: &dyn Property, tier: &str, seed: u64) -> BatchOutcome {
                 let scenario = report.scenario;
                 for (sig, message) in report.violations {
                     let violation = Violation { sig, message };
-                    let entry = first_by_sig.entry(violation.sig.clone());
-                    match entry {
-                        std::collections::btree_map::Entry::Vacant(slot) => {
-                            let scenario = match scenario.clone() {
-                                Some(scenario) => scenario,
-                                None => continue,
-                            };
-                            slot.insert((index, scenario, violation, 1));
-                        }
-                        std::collections::btree_map::Entry::Occupied(mut slot) => {
-                            slot.get_mut().3 += 1;
-                        }
+                    let scenario = match scenario.clone() {
+                        Some(scenario) => scenario,
+                        None => continue,
+                    };
+                    let slot = first_by_sig.entry(violation.sig.clone()).or_insert((Vec::new(), 0));
+                    slot.1 += 1;
+                    if slot.0.len() < MAX_CANDIDATES_PER_SIGNATURE {
+                        slot.0.push((index, scenario, violation));
                     }
                 }
             }
@@ -440,7 +442,44 @@ pub fn run_batch(prop: &dyn Property, tier: &str, seed: u64) -> BatchOutcome {
         .ok()
         .and_then(|v| v.parse().ok())
         .unwrap_or(400);
-    for (sig, (index, scenario, _violation, count)) in first_by_sig {
+    // An open known finding must not hide another violation with the same clause and
+    // class: a run whose scenario cannot shrink to a listed finding (it lacks a kind the
+    // finding needs; shrinking only removes) is taken first; otherwise the first runs are
+    // shrunk one after the other until one does not match a listed finding.
+    let mut work: Vec<(ViolationSig, usize, Scenario, usize)> = Vec::new();
+    for (sig, (candidates, count)) in first_by_sig {
+        let open_for_sig: Vec<&KnownFinding> = known
+            .iter()
+            .filter(|k| {
+                k.status == "open"
+                    && k.property == sig.property
+                    && k.clause == sig.clause
+                    && k.class == sig.class
+            })
+            .collect();
+        let may_be_known = |scenario: &Scenario| -> bool {
+            let raw = prop.kinds(scenario);
+            open_for_sig.iter().any(|k| {
+                k.requires_kinds.iter().all(|r| raw.contains(r))
+                    && k.kinds.iter().all(|r| raw.contains(r))
+            })
+        };
+        let surely_new = candidates.iter().position(|(_, scenario, _)| !may_be_known(scenario));
+        let mut ordered: Vec<(usize, Scenario, Violation)> = candidates;
+        if let Some(pos) = surely_new {
+            let chosen = ordered.remove(pos);
+            ordered.insert(0, chosen);
+        }
+        let limit = if open_for_sig.is_empty() { 1 } else { MAX_SHRINKS_PER_SIGNATURE };
+        for (index, scenario, _) in ordered.into_iter().take(limit) {
+            work.push((sig.clone(), index, scenario, count));
+        }
+    }
+    let mut settled: BTreeSet<ViolationSig> = BTreeSet::new();
+    for (sig, index, scenario, count) in work {
+        if settled.contains(&sig) {
+            continue;
+        }
         let budget = prop.shrink_budget(&scenario, shrink_budget);
         let (small, violation, checks) = shrink(prop, scenario, &sig, budget);
         let kinds = prop.kinds(&small);
@@ -452,6 +491,12 @@ pub fn run_batch(prop: &dyn Property, tier: &str, seed: u64) -> BatchOutcome {
                 && (k.kinds.is_empty() || k.kinds == kinds)
                 && k.requires_kinds.iter().all(|r| kinds.contains(r))
         });
+        if matched.is_none() {
+            settled.insert(sig.clone());
+        } else if known_hits.contains_key(&matched.unwrap().id) {
+            // another run of a finding that is already reported for this batch
+            continue;
+        }
         // confirm the minimised scenario replays
         let replays = prop
             .recheck(&small)
